@@ -137,7 +137,8 @@ def crossratio(
     bc = det(np.stack([*o, b, c], axis=-2))
 
     with np.errstate(divide="ignore", invalid="ignore"):
-        return ac * bd / (ad * bc)
+        # the quotients are formed first: the products of the determinants overflow for integer coordinates around 1000
+        return (ac / ad) * (bd / bc)
 
 
 def harmonic_set(a: PointTensor, b: PointTensor, c: PointTensor) -> PointTensor:
